@@ -41,20 +41,32 @@ Theorem C15_no_data_race : forall bits opss sched t1 t2,
 Proof. exact gen_no_data_race. Qed.
 Print Assumptions C15_no_data_race.
 
-(* every completed find k returns nothing or exactly the word list of some
-   insert k v of some thread's program: never a torn, truncated or foreign
-   value *)
+(* every completed find k returns nothing or exactly the word list some
+   thread's program stores under k -- by insert k v, or as a record of a load
+   ([ins_op]): never a torn, truncated or foreign value, although a slot is
+   assigned member by member (hash, then fitness, then seal) *)
 Theorem C15_find_returns_whole_value : forall bits opss sched t th k r,
   nth_error (ths (run sched (init (gen_progs bits opss)))) t = Some th ->
   In (k, r) (results th) -> k <> key0 ->
-  r = [] \/ exists ops, In ops opss /\ In (OInsert k r) ops.
+  r = [] \/ exists ops o, In ops opss /\ In o ops /\ In (k, r) (ins_op o).
 Proof. exact gen_find_whole. Qed.
 Print Assumptions C15_find_returns_whole_value.
+
+(* no thread that holds a lock ever sees a half-assigned slot: except for the
+   slot the exclusive holder is in the middle of assigning (its next action
+   is the fitness write), every slot holds the empty key or a stored pair *)
+Theorem C15_slot_consistent_under_lock : forall bits opss sched t th j,
+  let s := run sched (init (gen_progs bits opss)) in
+  nth_error (ths s) t = Some th -> holds th <> None ->
+  (forall v r, acts th <> AWrFit j v :: r) ->
+  skey (mem s j) = key0 \/ In (skey (mem s j), sfit (mem s j)) (flat_map ins_of (gen_progs bits opss)).
+Proof. exact gen_slot_consistent. Qed.
+Print Assumptions C15_slot_consistent_under_lock.
 
 (* the same absence of races for ANY programs that pass the static lock
    discipline check, not only sequences of cache methods *)
 Theorem C15_no_data_race_any_well_locked_program : forall progs sched t1 t2,
-  Forall (fun p => wlb None false p = true) progs ->
+  Forall (fun p => wlb None false p = true /\ pairs_ok p = true) progs ->
   race (run sched (init progs)) t1 t2 = false.
 Proof. exact any_no_data_race. Qed.
 Print Assumptions C15_no_data_race_any_well_locked_program.
@@ -65,13 +77,16 @@ Local Open Scope N_scope.
 Example C15_nonvacuous :
   let opss := [[OFind (1, 5); OFind (5, 5)];
                [OInsert (1, 5) [10; 11]; OInsert (5, 5) [20; 21; 22; 23]];
-               [OClear; OClearOne (1, 5)]] in
+               [OClear; OClearOne (1, 5); OSave; OLoad 7 [((9, 9), [1])]]] in
   let sched := map N.to_nat
-    [1;1;1;1; 0;0;0; 1;1 (* blocked *); 0;0;0;0;0; 1;1;1;1; 0;0;0;0;0;0;0;0;0;0; 2;2;2;2;2;2;2] in
+    [1;1;1;1;1;1; 0;0;0; 1;1 (* blocked *); 0;0;0;0;0; 1;1;1;1;1;1; 0;0;0;0;0;0;0;0;0;0;
+     2;2;2;2;2;2;2; 2;2;2;2;2;2;2; 2;2;2;2;2;2] in
   let s := run sched (init (gen_progs 2 opss)) in
   finished s = true /\
   all_results s = [[((5, 5), [20; 21; 22; 23]); ((1, 5), [10; 11])]; []; []] /\
   (* the writer really was blocked while the reader held the shared lock *)
-  writer (run (firstn 9 sched) (init (gen_progs 2 opss))) = None /\
-  readers (run (firstn 9 sched) (init (gen_progs 2 opss))) = [0%nat].
+  writer (run (firstn 11 sched) (init (gen_progs 2 opss))) = None /\
+  readers (run (firstn 11 sched) (init (gen_progs 2 opss))) = [0%nat] /\
+  (* in the middle of the second insert slot 1 holds the NEW key with the OLD value *)
+  (let m := mem (run (firstn 19 sched) (init (gen_progs 2 opss))) 1 in (skey m, sfit m)) = ((5, 5), [10; 11]).
 Proof. vm_compute. repeat split. Qed.
